@@ -442,7 +442,7 @@ class LP:
                 vals[n] = a[i]
             elif n in k:
                 vals[n] = k[n]
-        extra = set(k) - set(names) - {"bounds"}
+        extra = set(k) - set(names) - {"bounds", "options"}  # solver options do not change the contract A4
         if extra or len(a) > 3:
             raise Unsupported("linprog called with %s" % sorted(extra))
         bounds = k.get("bounds")
